@@ -1,23 +1,21 @@
 package main
 
 import (
-	"runtime/pprof"
-	"os"
 	"context"
 	"fmt"
+	"os"
 	"sync"
 	"sync/atomic"
 	"time"
 
-	"github.com/aperturerobotics/bifrost/pubsub"
 	"github.com/aperturerobotics/bifrost/pubsub/floodsub"
 )
 
 // relinkProbe: a link to a subscribed peer goes down (its peerChannels entries
 // stay), the node keeps publishing, the link is re-established with the same
 // PeerLinkTuple. Looks for a panic of the Execute goroutine (execPublish ->
-// writePacket on a stream that has no context yet). Probe only, not part of
-// the default C28 run.
+// writePacket on a stream that has no context yet; guarded since /repo
+// 0d866bc). Oracle only; part of the default C28 run.
 func relinkProbe(keys []keyInfo, rounds int) []string {
 	var out []string
 	var mu sync.Mutex
@@ -25,7 +23,12 @@ func relinkProbe(keys []keyInfo, rounds int) []string {
 		ctx, cancel := context.WithCancel(context.Background())
 		defer cancel()
 		fs := newFloodSub(ctx)
-		defer fs.Close()
+		wedged := false
+		defer func() {
+			if !wedged {
+				fs.Close()
+			}
+		}()
 		if _, err := fs.AddSubscription(ctx, keys[4].priv, "ch"); err != nil {
 			panic(err)
 		}
@@ -38,7 +41,6 @@ func relinkProbe(keys []keyInfo, rounds int) []string {
 			}()
 			_ = fs.Execute(ctx)
 		}()
-		tpl := pubsub.PeerLinkTuple{PeerID: keys[1].id, LinkID: 1}
 		rp := attachRaw(fs, keys[1], 1)
 		_ = rp.send(&floodsub.Packet{Subscriptions: []*floodsub.SubscriptionOpts{{Subscribe: true, ChannelId: "ch"}}})
 		ok := waitFor(3*time.Second, time.Millisecond, func() bool {
@@ -78,36 +80,42 @@ func relinkProbe(keys []keyInfo, rounds int) []string {
 		}
 		time.Sleep(time.Duration(5+r%20) * time.Millisecond)
 		rp2 := attachRaw(fs, keys[1], 1) // same tuple again
-		if os.Getenv("RELINK_DEBUG") != "" {
-			sn := fs.VerifSnapshot()
-			fmt.Fprintln(os.Stderr, "after relink: pending", len(sn.Pending), "started", len(sn.Started), "queue", sn.PublishQueue, "seen", sn.Seen, "pc", sn.PeerChannels["ch"])
-		}
-		_ = tpl
-		time.Sleep(150 * time.Millisecond)
-		if os.Getenv("RELINK_DEBUG") != "" {
-			done := make(chan *floodsub.VerifSnapshot, 1)
-			go func() { done <- fs.VerifSnapshot() }()
+		// until the new stream has its context (or the loop died)
+		snapOK := func() *floodsub.VerifSnapshot {
+			ch := make(chan *floodsub.VerifSnapshot, 1)
+			go func() { ch <- fs.VerifSnapshot() }()
 			select {
-			case sn := <-done:
-				fmt.Fprintln(os.Stderr, "150ms later: pending", len(sn.Pending), "started", len(sn.Started), "queue", sn.PublishQueue, "seen", sn.Seen)
-			case <-time.After(time.Second):
-				fmt.Fprintln(os.Stderr, "150ms later: router mutex is held (snapshot blocked)")
+			case sn := <-ch:
+				return sn
+			case <-time.After(2 * time.Second):
+				return nil
 			}
 		}
-		if os.Getenv("RELINK_DEBUG") == "2" && r == 0 {
-			pprof.Lookup("goroutine").WriteTo(os.Stderr, 2)
+		for k := 0; k < 100 && crashed.Load() == nil; k++ {
+			time.Sleep(10 * time.Millisecond)
+			if k%10 == 9 {
+				sn := snapOK()
+				if sn == nil || len(sn.Pending) == 0 {
+					break
+				}
+			}
+		}
+		time.Sleep(20 * time.Millisecond)
+		if c := crashed.Load(); c != nil {
+			// the panic left m.mtx locked: the router is wedged, nothing can be cleaned up
+			wedged = true
+			stop.Store(true)
+			mu.Lock()
+			out = append(out, fmt.Sprintf("round %d: link (peer 1, id 1) subscribed to \"ch\" went down, %d stale peerChannels entry of the dead tuple stayed; while 16 goroutines keep publishing on \"ch\" the same tuple is re-added with AddPeerStream; Execute panicked in execPublish -> writePacket (stream without context): %s", r, stale, c.(string)))
+			mu.Unlock()
+			return
 		}
 		stop.Store(true)
 		cancel()
 		wg.Wait()
 		rp2.close()
 		if os.Getenv("RELINK_DEBUG") != "" {
-			fmt.Fprintln(os.Stderr, "round", r, "stale", stale, "crashed", crashed.Load())
-		}
-		if c := crashed.Load(); c != nil {
-			mu.Lock()
-			out = append(out, fmt.Sprintf("round %d: stale peerChannels entries of the dead tuple: %d; Execute panicked: %s", r, stale, c.(string)))
-			mu.Unlock()
+			fmt.Fprintln(os.Stderr, "round", r, "stale", stale, "no panic")
 		}
 	})
 	return out
